@@ -58,10 +58,14 @@ func (i *distanceHitIterator) findNext() {
 			break
 		}
 
-		if p1+i.distance < p2 {
+		// Compare in 64 bits: in a corrupt shard p1 can be within distance of
+		// 2^32, and a wrapped p1+distance makes no iterator advance (an endless
+		// loop).
+		want := uint64(p1) + uint64(i.distance)
+		if want < uint64(p2) {
 			i.i1.next(p2 - i.distance - 1)
-		} else if p1+i.distance > p2 {
-			i.i2.next(p1 + i.distance - 1)
+		} else if want > uint64(p2) {
+			i.i2.next(uint32(min(want-1, math.MaxUint32)))
 		} else {
 			break
 		}
